@@ -130,6 +130,10 @@ def derive_actual(c, m):
     if f == "FStruct":
         return ["struct"]
     if f == "FFloat":
+        if m["idx"] != 0 and TYPES[m["type"]] == "TStack":
+            k = m["u"]
+            lo, hi = resolve(c, word_token(c, ("stack", k))), resolve(c, word_token(c, ("stack", k + 1)))
+            return ["flt", (lo | (hi << 64)) & ((1 << (8 * m["size"])) - 1)]
         return ["flt", c.get("xmm0", 0)]
     loc = loc_of_mspec(m)
     if loc is None:
@@ -247,8 +251,8 @@ class Gen:
                 r.choice([self.add_int, self.add_int, self.add_char, self.add_str])()
         else:
             for _ in range(r.randrange(1, 9)):
-                r.choice([self.add_int, self.add_int, self.add_str, self.add_str, self.add_char, self.add_ptr,
-                          self.add_struct])()
+                r.choice([self.add_int, self.add_int, self.add_int, self.add_str, self.add_str, self.add_str, self.add_char,
+                          self.add_char, self.add_ptr, self.add_ptr, self.add_struct, self.add_struct, self.add_ldbl])()
         if profile == "ret" or profile == "multi" or r.random() < 0.5:
             self.add_ret()
         if not c["specs"] and not c["rspecs"]:
@@ -497,6 +501,30 @@ class Gen:
             c["actual"].append(av)
         c["specs"].append(name + "/S" + sfx)
         c["tags"].append("fmt=S")
+
+    def add_ldbl(self):
+        """a long double argument (x87: passed in memory): fpargN/80%stack+K takes 10 of the 16 bytes at stack word K"""
+        r = self.rng
+        c, used, locs = self._c, self._used, self._locs
+        for _ in range(20):
+            k = r.randrange(1, 22)
+            if ("S", k) in used or ("stack", k) in locs or ("stack", k + 1) in locs:
+                continue
+            n = r.randrange(1, 9)
+            if ("F", n) in used:
+                continue
+            used.add(("S", k))
+            used.add(("F", n))
+            locs.add(("stack", k))
+            locs.add(("stack", k + 1))
+            lo, hi = r.choice([(0xa000000000000000, 0x3fff), (0x8000000000000000, 0xc000), (0, 0),
+                               (r.getrandbits(64) | (1 << 63), r.randrange(1, 0x7ffe))])
+            self.put(("stack", k + 1), hi | (r.getrandbits(48) << 16))
+            self.put(("stack", k), lo)
+            c["specs"].append("fparg%d/80%%stack+%d" % (n, k))
+            c["actual"].append(["flt", lo | (hi << 64)])
+            c["tags"].append("fmt=f80")
+            return
 
     def add_ptr(self):
         r = self.rng
@@ -754,7 +782,9 @@ def script_token(tok, spec):
         isflt = spec is not None and FMTS[spec["fmt"]] == "FFloat"
         if not isflt and k == "D" and d == int(d):
             return ("int", int(d))                      # a Lua number that holds an integer
-        size = 4 if isflt and spec["size"] == 4 else 8       # double and long double arrive as a double
+        if isflt and spec["size"] == 10:
+            return ("flt", 10, 0)                           # (double)long double: the bits are not compared
+        size = 4 if isflt and spec["size"] == 4 else 8
         try:
             bits = int.from_bytes(struct.pack("<f", d), "little") if size == 4 else \
                 int.from_bytes(struct.pack("<d", d), "little")
@@ -981,6 +1011,16 @@ class Impl:
             p = subprocess.run(["timeout", "60", exe, "script", "--no-pager", "-S", sc, "-d", d], capture_output=True,
                                timeout=90)
             self.script_ok[lang] = self.parse_script(cases, lang, p)
+        # memory safety of the readers (thorough tier, every 4th stream): ASan + UBSan build of the current tree
+        self.asan_report = None
+        if self.ctx.thorough() and self.nrun % 4 == 0:
+            asan = build.get_build("asan", self.ctx.log)
+            for cmd in (["replay", "-f", "none"], ["dump"], ["script", "-S", os.path.join(self.ctx.scratch, "c09log.py")]):
+                q = subprocess.run(["timeout", "120", os.path.join(asan, "uftrace")] + cmd + ["--no-pager", "-d", d],
+                                   capture_output=True, timeout=150)
+                if b"AddressSanitizer" in q.stderr or b"runtime error" in q.stderr:
+                    self.asan_report = (cmd[0], q.stderr[:1500].decode("latin-1"))
+                    break
         return ok
 
     def parse_script(self, cases, lang, p):
@@ -1333,7 +1373,7 @@ class E2EGen:
             v = r.choice([0.0, 1.5, -2.25, 1024.125, -0.5, 3.25, 100000.0, r.randrange(-4000, 4000) / 8.0])
             sfx = {32: "f", 64: "", 80: "L"}[bits]
             fb = int.from_bytes(struct.pack("<f", v), "little") if bits == 32 else int.from_bytes(struct.pack("<d", v), "little")
-            return "%r%s" % (v, sfx), ["txt", ["%f" % v], ["flt", 4 if bits == 32 else 8, fb]]
+            return "%r%s" % (v, sfx), ["txt", ["%f" % v], ["flt", 4 if bits == 32 else 8, fb, bits, v]]
         if kind == "struct":
             return ("(struct big){1, 2, 3}" if "big" in ct else "(struct pair){7, 8}"), ["struct"]
         if kind == "nullptr":
@@ -1389,7 +1429,9 @@ def e2e_saval(a, record_time):
             return "AScr [] [%s] []" % blist(k[1].encode())
         if k[0] == "flt":
             # libmcount cannot touch floating-point values: listed finding script-record-float
-            return ("AScr [] [%s] []" % blist(b"<float>")) if record_time else "AScr [] [] [(%d, %s)]" % (k[1], num(k[2]))
+            if record_time:
+                return "AScr [] [%s] []" % blist(b"<float>")
+            return "AScr [] [] [(10, 0)]" if k[3] == 80 else "AScr [] [] [(%d, %s)]" % (k[1], num(k[2]))
         return "AAnyInt"
     return e2e_aval(a)
 
@@ -1409,6 +1451,74 @@ def parse_e2e_script(out, funcs, specs_of):
         else:
             d["ret"] = None if k[3] == "-" else [script_token(t, pr[0] if pr else None) for t in k[4:5]]
     return res
+
+
+def x87_bits(v):
+    """the 80-bit extended encoding of the double v (exact)"""
+    import math
+    if v == 0:
+        return 0
+    m, e = math.frexp(abs(v))
+    return int(m * (1 << 64)) | (((e - 1 + 16383) | (0x8000 if v < 0 else 0)) << 64)
+
+
+def e2e_dump(ctx, impl, funcs, items, data, asan_dir=None):
+    """`uftrace dump` on the data of a traced program: the raw values must be the values passed (third reader)"""
+    out = []
+    objdir = asan_dir or impl.objdir
+    p = subprocess.run(["timeout", "120", os.path.join(objdir, "uftrace"), "dump", "--no-pager", "-d", data],
+                       capture_output=True, timeout=150)
+    if p.returncode != 0 or b"AddressSanitizer" in p.stderr:
+        return [(items[0][0], "uftrace dump%s fails: rc=%d %s" % (" (ASan build)" if asan_dir else "", p.returncode,
+                                                              p.stderr[:600].decode("latin-1")))]
+    text = p.stdout
+    for f, pa, pr in items:
+        a = text.find(b"[entry] %s(" % f["name"].encode())
+        b = text.find(b"[exit ] %s(" % f["name"].encode(), a) if a >= 0 else -1
+        e = text.find(b"\n", text.find(b"[entry] ", b + 1)) if b >= 0 else -1
+        if a < 0 or b < 0:
+            out.append((f, "uftrace dump has no entry/exit record of %s" % f["name"]))
+            continue
+        for seg, truths, kind in ((text[a:b], f["actual"], "args"),
+                                  (text[b:text.find(b"[entry] ", b + 1) if text.find(b"[entry] ", b + 1) > 0 else len(text)],
+                                   [f["ractual"]] if f["ractual"] is not None else [], "retval")):
+            for i, t in enumerate(truths):
+                key = (b"args[%d] " % i) if kind == "args" else b"retval "
+                m = re.search(rb"\n  " + re.escape(key) + rb"([^\n]*)", seg)
+                line = m.group(1) if m else None
+                bad = None
+                if t[0] == "strv":
+                    want = t[1].encode()
+                    want = want if len(want) <= ARG_STR_MAX else want[:ARG_STR_MAX - 3] + b"..."
+                    if line != b"str: " + want:
+                        bad = want
+                elif t[0] == "null":
+                    if line != b"str: NULL":
+                        bad = b"NULL"
+                elif t[0] == "txt" and len(t) > 2 and t[2][0] in ("ints", "flt", "str"):
+                    m2 = re.match(rb"[a-zA-Z](\d+): 0x([0-9a-f]+)$", line or b"")
+                    m3 = re.match(rb"enum \S+: .* \((-?\d+)\)$", line or b"")
+                    k = t[2]
+                    if re.match(rb"p: ", line or b""):
+                        if k[0] == "ints" and line != b"p: " + (b"0" if k[1] == [0] else b"?"):
+                            bad = k[1]
+                    elif m3 and k[0] == "ints":
+                        if int(m3.group(1)) not in k[1]:
+                            bad = k[1]
+                    elif not m2:
+                        bad = "a raw value"
+                    else:
+                        bits, val = int(m2.group(1)), int(m2.group(2), 16)
+                        if k[0] == "ints" and val not in [c % (1 << bits) for c in k[1]]:
+                            bad = k[1]
+                        elif k[0] == "str" and val != ord(k[1]):
+                            bad = k[1]
+                        elif k[0] == "flt" and val != (x87_bits(k[4]) if k[3] == 80 else k[2]):
+                            bad = hex(x87_bits(k[4]) if k[3] == 80 else k[2])
+                if bad is not None:
+                    out.append((f, "uftrace dump shows %s %r for %s[%d], the value passed is %r"
+                                % (kind, line, kind, i, bad)))
+    return out
 
 
 def e2e_scripts(ctx, impl, funcs, items, d, data, exe, tag):
@@ -1545,6 +1655,18 @@ def e2e_run(ctx, impl, funcs, tag, extra_opts=(), judge_ret=True, scripts=False)
             out.append((f, ("replay shows %s%s" % f["shown"]) if i in bad else None))
         if scripts:
             out += e2e_scripts(ctx, impl, funcs, items, d, data, exe, tag)
+            out += e2e_dump(ctx, impl, funcs, items, data)
+            if ctx.thorough():
+                # memory safety of the readers on the same data (ASan + UBSan build of the current tree)
+                asan = build.get_build("asan", ctx.log)
+                out += e2e_dump(ctx, impl, funcs, items, data, asan_dir=asan)
+                for cmd in (["replay", "-f", "none"], ["script", "-S", os.path.join(d, "log.py")],
+                            ["script", "-S", os.path.join(d, "log.lua")]):
+                    q = subprocess.run(["timeout", "120", os.path.join(asan, "uftrace")] + cmd + ["--no-pager", "-d", data],
+                                       capture_output=True, timeout=150)
+                    if b"AddressSanitizer" in q.stderr or b"runtime error" in q.stderr:
+                        out.append((items[0][0], "ASan/UBSan report in `uftrace %s`: %s"
+                                    % (" ".join(cmd[:1]), q.stderr[:800].decode("latin-1"))))
     return out
 
 
@@ -1717,6 +1839,14 @@ def run_cases_through(ctx, impl, cases, name):
                               {"mode": "resync", "case": public(bad), "batch": [public(c) for c in b],
                                "replay_rc": rc, "replay_output_tail": out[-1500:].decode("latin-1"),
                                "replay_stderr": err[-500:].decode("latin-1")}, True)
+        if getattr(impl, "asan_report", None):
+            ctx.extra["asan_reports"] = ctx.extra.get("asan_reports", 0) + 1
+            if ctx.extra["asan_reports"] <= 2:
+                ctx.violation("C09: `uftrace %s` (ASan/UBSan build) reports a memory error while reading the recorded "
+                              "arguments" % impl.asan_report[0],
+                              {"mode": "asan", "batch": [public(c) for c in b], "report": impl.asan_report[1]}, True)
+        if not impl.replay_ok:
+            pass
         elif not all(impl.script_ok.values()):
             lang, rc, out, err = impl.last_script
             bad = next((c for c in b if c["obs"].get(lang) is None), b[0])
